@@ -419,6 +419,20 @@ func Families(quick bool) []*trav.Sel {
 			out = append(out, trav.Rec(l, x(trav.Un(trav.Edge(), trav.Rec(2, x(trav.Edge()))))))        // inner recursion beside an outer edge
 		}
 	}
+	// interest lists longer than the node, stated in non-ascending order, with absent members: the
+	// selector's stated order is the visit order whatever the node's length
+	m := trav.M()
+	desc := []*trav.Sel{
+		trav.Fld(trav.F1("2", m), trav.F1("0", m), trav.F1("7", m)),
+		trav.Fld(trav.F1("1", m), trav.F1("0", m), trav.F1("5", m)),
+		trav.Fld(trav.F1("b", m), trav.F1("zz", m), trav.F1("a", m), trav.F1("0", m)),
+		trav.Un(trav.Idx(1, m), trav.Idx(0, m), trav.Idx(5, m)),
+		trav.Un(trav.Rng(1, 3, m), trav.Rng(0, 2, m)),
+		trav.Un(trav.Idx(2, m), trav.Rng(0, 2, m), trav.Idx(9, m)),
+	}
+	for _, d := range desc {
+		out = append(out, d, trav.All(d), trav.Rec(-1, trav.Un(d, trav.All(trav.Edge()))))
+	}
 	return out
 }
 
